@@ -203,19 +203,20 @@ def main(argv=None):
     extra.update(ex2)
     harness += h2
     for v, ops in v2:
-        agg.viol.append((-1, v, ops))
+        agg.viol.append((-1, v, ops, []))
 
     # violations: dedupe by signature, minimise, replay files
     known = load_known()
     reported = 0
     seen = {}
-    for idx, v, ops in sorted(agg.viol, key=lambda x: (x[0], x[1]["kind"])):
+    for idx, v, ops, prefix in sorted(agg.viol,
+                                      key=lambda x: (x[0], x[1]["kind"])):
         sig = (v["kind"], v["cls"], v.get("site"))
         if sig in seen:
             continue
-        seen[sig] = (idx, v, ops)
+        seen[sig] = (idx, v, ops, prefix)
     knowns_printed = set()
-    for sig, (idx, v, ops) in list(seen.items())[:12]:
+    for sig, (idx, v, ops, prefix) in list(seen.items())[:12]:
         e = match_known(pid, v, known)
         if e is not None:
             if e["what"] not in knowns_printed:
@@ -224,9 +225,21 @@ def main(argv=None):
             continue
         mops, ok = (ops, True) if nomin else MIN.minimise(
             prop, ops, (v["kind"], v["cls"]))
+        history_dependent = False
+        if not ok and prefix:
+            # found in a batch but does not reproduce alone: the history of
+            # that process up to the run is the history (DESIGN 3.4)
+            full = []
+            for k, pops in enumerate(prefix):
+                full += C.remap_ops(pops, k + 1)
+            full += ops
+            mops, ok = MIN.minimise(prop, full, (v["kind"], v["cls"]))
+            history_dependent = ok
+            if ok:
+                print("  (does not reproduce in a pristine process on its "
+                      "own: the minimised history includes earlier runs of "
+                      "the same process)")
         if not ok:
-            # found in a batch but does not reproduce alone: the batch prefix
-            # is the history (DESIGN 3.4) - report with the original ops
             mops = ops
         vv = MIN.trial(prop, mops, (v["kind"], v["cls"])) or v
         path = MIN.write_replay(prop, seed, tier, idx, vv, mops, ops,
